@@ -47,7 +47,12 @@ def pair_cases(draw):
     n = s["n"]
     s["cache"] = draw(st.sampled_from([True, True, n, n + 1, max(1, n - 1)]))
     s["ctor"] = draw(st.sampled_from(["init", "init", "from_data"]))
-    return {"setup": s, "ops": draw(iterlab.ops(n_hint=n, max_len=35))}
+    ops = draw(iterlab.ops(n_hint=n, max_len=35))
+    if draw(st.integers(0, 2)) == 0:
+        # a caller-supplied padding class that refuses one render size: set_render_size() to that size fails part-way
+        # (then a regular padding is set again and iteration goes on)
+        ops.insert(draw(st.integers(0, len(ops))), {"op": "fussy_size", "w": draw(st.integers(1, 6)), "h": draw(st.integers(1, 4))})
+    return {"setup": s, "ops": ops}
 
 
 def check_pair(case, rec):
@@ -75,6 +80,7 @@ def check_pair(case, rec):
     kinds = []
     trace = []
     expanded = []
+    fussy = False
     for o in case["ops"]:
         expanded += [{"op": "next"}] * o["k"] if o["op"] == "nexts" else [o]
     for o in expanded:
@@ -93,6 +99,37 @@ def check_pair(case, rec):
                 L.decoy()
             continue
         if k == "tell":
+            continue
+        if k == "fussy_size":
+            from term_image.geometry import Size
+
+            class _Refused(Exception):
+                pass
+
+            class Fussy(P.ExactPadding):
+                def get_padded_size(self, size, _t=(o["w"], o["h"])):
+                    if tuple(size) == _t:
+                        raise _Refused(f"size {_t} refused")
+                    return super().get_padded_size(size)
+
+            res = []
+            for L in (A, B):
+                try:
+                    L.it.set_padding(Fussy(1, 0, 0, 0))
+                    L.it.set_render_size(Size(o["w"], o["h"]))
+                    res.append("accepted")
+                except _Refused:
+                    res.append("refused")
+                    L.it.set_padding(P.ExactPadding(0, 1, 0, 0))
+                except Exception as e:
+                    res.append(type(e).__name__)
+            if res[0] != res[1]:
+                raise Violation(f"cached and uncached iterators diverge at {o}: {res}", {"kind": "diverge", "op": k})
+            trace.append((k, res[0]))
+            if res[0] == "refused":
+                # from here on the model of the settings no longer applies: only the differential is judged
+                fussy = True
+                changed.add("fussy_size")
             continue
         before = m.settings_key()
         if k == "next":
@@ -124,7 +161,7 @@ def check_pair(case, rec):
                 f"  setup={s}\n  trace={trace[-8:]}", {"kind": "diverge", "op": k})
         if A.it.loop != B.it.loop:
             raise Violation(f"loop differs after {o}: {A.it.loop} vs {B.it.loop}", {"kind": "loop"})
-        if k == "next" and cached:
+        if k == "next" and cached and not fussy:
             new = [e for e in B.r.log[epoch_start:] if e[0] == "render"]
             epoch_start = len(B.r.log)
             for e in new:
@@ -135,7 +172,7 @@ def check_pair(case, rec):
                 seen_in_epoch.add(e[1])
     A.it.close()
     B.it.close()
-    rec.label("cached" if cached else "cache_below_n", "revisit_after_change" if revisit else "plain",
+    rec.label("cached" if cached else "cache_below_n", "revisit_after_change" if revisit else "plain", *(["refused_size"] if fussy else []),
               *[f"chg:{c}" for c in sorted(changed)])
     if revisit:
         rec.nontriv([sorted(changed), cached, s["cache"] is True, kinds])
